@@ -9,7 +9,14 @@ Inductive c07case :=
 | CParse (input : list N) (go_valid : bool) (go_dump : option (list N)) (go_utf8 : bool)
 (* a render case in compact form (wide tables): the string-encoding oracle as
    a table of the distinct texts *)
-| CRenderT (v : view) (tbl : list (list N * list N)) (obs : res (list N)).
+| CRenderT (v : view) (tbl : list (list N * list N)) (obs : res (list N))
+(* a history of renders in ONE process, in the order they happened (several
+   tables, or one table rendered again after it grew): per render the view the
+   table must present at that moment, the string-encoding oracle, what Render
+   returned, and the text Render returned ALONG WITH an error (must be none).
+   Every render is judged on its own: what was rendered earlier in the process
+   has no bearing on it. *)
+| CMany (cs : list (view * list (list N * list N) * res (list N) * list N)).
 
 (* abbreviations for the cells wide generated tables are made of; the harness
    uses one only for a cell whose observed text / emptiness / encoding are
@@ -113,8 +120,27 @@ Definition render_code (v : view) (tbl : list (list N * list N)) (shapes : bool)
   (code (res_eqb bytes_eqb (C07_model_of v tbl) obs) (C07_ok v tbl obs)
    + (if shapes && oracles_ok tbl v then 0 else 4))%N.
 
+(* one render of a history: the render case proper, and "an error comes with no text" *)
+Definition err_text_ok (obs : res (list N)) (errtext : list N) : bool :=
+  match obs, errtext with
+  | Err, _ :: _ => false
+  | _, _ => true
+  end.
+
+Definition many_code (c : view * list (list N * list N) * res (list N) * list N) : N :=
+  let '(v, tbl, obs, errtext) := c in
+  N.lor (render_code v tbl (tbl_covers tbl v) obs) (if err_text_ok obs errtext then 0 else 2)%N.
+
+Fixpoint first_bad (cs : list (view * list (list N * list N) * res (list N) * list N))
+  : option (view * list (list N * list N) * res (list N) * list N) :=
+  match cs with
+  | [] => None
+  | c :: r => if N.eqb (many_code c) 0 then first_bad r else Some c
+  end.
+
 Definition C07_case (c : c07case) : N :=
   match c with
+  | CMany cs => fold_left N.lor (map many_code cs) 0%N
   | CRender v keys fbs obs => render_code v (enc_table v keys fbs) (shapes_ok v keys fbs) obs
   | CRenderT v tbl obs => render_code v tbl (tbl_covers tbl v) obs
   | CParse input go_valid go_dump go_utf8 =>
@@ -141,6 +167,11 @@ Definition render_model (v : view) (tbl : list (list N * list N)) (obs : res (li
 
 Definition C07_model (c : c07case) : res (list N) * option (list N) * option (list N) * bool :=
   match c with
+  | CMany cs =>      (* the first render of the history that does not check (else nothing to show) *)
+      match first_bad cs with
+      | Some (v, tbl, obs, _) => render_model v tbl obs
+      | None => (Err, None, None, false)
+      end
   | CRender v keys fbs obs => render_model v (enc_table v keys fbs) obs
   | CRenderT v tbl obs => render_model v tbl obs
   | CParse input _ _ _ => (Err, option_map jdump (parse_json input), None, valid_utf8 input)
